@@ -26,8 +26,8 @@ Proved here, for **all** digit strings, exponents, float types `f32`/`f64`, the 
 
 Not proved (kept as `Prop`s): `truncation_invariant` — replacing a non-zero cut tail by a single `1` digit does not
 change the rounding (needs "no half-way point has more than `max_digits − 1` digits", `Spec.PowerTables.midpointDigitsLe`,
-linked to `roundNE`); `slow_radix_correct_full`; `byte_comp` (odd radices) — correspondence only, and **refuted** for
-lower-case digits (`byte_comp_lowercase_wrong`).
+linked to `roundNE`); `slow_radix_correct_full`; `byte_comp` (odd radices) — correspondence only
+(`byte_comp_lowercase_regression`: the lower-case defect this model exposed, fixed in /repo 6651793).
 -/
 namespace LexVerif.Props.C01Slow
 open LexVerif.Spec LexVerif.Proof.Tables LexVerif.Model LexVerif.Model.Slow LexVerif.Model.Bellerophon
@@ -456,18 +456,18 @@ example : positiveDigitComp envRadix FTy.f32 36 (2 ^ 24 + 1) 3 =
 example : positiveDigitComp envDefault FTy.f64 10 1 1195 = none ∧
     (positiveDigitComp envDefault FTy.f64 10 1 1194).isSome = true := by decide +kernel
 
-/-! ## finding: `compare_bytes` mis-orders lower-case digits (odd radices ≥ 11, `byte_comp`) -/
+/-! ## regression: `compare_bytes` and lower-case digits (odd radices ≥ 11, `byte_comp`) -/
 
-/-- **`byte_comp_lowercase_wrong`** (negation witness on the model, which agrees with the compiled crate on this
-input): radix 11, `2179a75830112629` = `2^53 + 1`, an exact tie. With the digit `a` in lower case `compare_bytes`
-compares the byte `'a'` with the upper-case `'A'` that `digit_to_char_const` produces, answers `Greater`, and the
-result is `2^53 + 2`; the upper-case spelling gives the correct (even) `2^53`. -/
-theorem byte_comp_lowercase_wrong :
+/-- **`byte_comp_lowercase_regression`**: radix 11, `2179a75830112629` = `2^53 + 1`, an exact tie. Until /repo commit
+6651793 `compare_bytes` compared the input byte `'a'` with the upper-case `'A'` that `digit_to_char_const` produced,
+answered `Greater`, and the lower-case spelling parsed to `2^53 + 2` (the model of that code decided
+`… = some ⟨1, 1076⟩`; found by this model's correspondence stream). Now digit values are compared: both spellings
+give the even neighbour `2^53`. -/
+theorem byte_comp_lowercase_regression :
     slowRadix envRadix FTy.f64 true 11 ⟨9007199254740993, 0, bytesOf "2179a75830112629", none⟩
-      ⟨9223372036854776832, 1065⟩ = some ⟨1, 1076⟩ ∧
+      ⟨9223372036854776832, 1065⟩ = some ⟨0, 1076⟩ ∧
     slowRadix envRadix FTy.f64 true 11 ⟨9007199254740993, 0, bytesOf "2179A75830112629", none⟩
       ⟨9223372036854776832, 1065⟩ = some ⟨0, 1076⟩ ∧
-    extendedToFloat FTy.f64 ⟨1, 1076⟩ ≠ roundNE f64 (2 ^ 53 + 1) 1 ∧
     extendedToFloat FTy.f64 ⟨0, 1076⟩ = roundNE f64 (2 ^ 53 + 1) 1 := by decide +kernel
 
 end LexVerif.Props.C01Slow
